@@ -30,6 +30,7 @@ var c06Constructs = []string{
 	`a@{|x| x}`, `o@{|kv| kv}`, `m@{|kv| kv}`, `a$(aa){|acc, x| acc + [x]}`, `a$(a){|acc, x| acc + [x]}`,
 	`o.digest([["k", 1]])`, `a.digest([9])`, `m.digest([[1, 2]])`,
 	`o2.{|x| \_}`, `{|| \_}(**o)`, `{|| \0}(*a)`, `a.{|x| [*x, *x]}`,
+	`rd.A + a`, `[*rd]`, `a[rd]`, `s[rd]`, `rd@{|x| x}`, `ad@{|x| x}`, `[*ad, *rd]`, `rd._iter.next`, `ad.sum`, `rd == r`,
 	`o == o2`, `m == m2`, `a == aa`, `o.keys + o2.keys`, `r.A + a`, `s + s`, `s * 2`, `a * 2`,
 }
 
@@ -220,6 +221,10 @@ func c06World(h *H, symbolic bool) *c06Pool {
 		{"fn", `{|q| q}`},
 		{"ch", `{p: x1}.bear({z: [x3]})`},
 		{"aa", `[[x1], [x2]]`},
+		// values whose components are descendants of built-in values (a built-in that
+		// normalises such a component must build a new value, not write into this one)
+		{"rd", `(x1:x2:2.bear({name: "two"}))`},
+		{"ad", `[3.bear({k: 1}), "s".bear({t: 1}), [x1].bear({u: 1})]`},
 	} {
 		p.add(d[0], h.Eval(d[1]))
 	}
@@ -248,7 +253,7 @@ func propNames(v object.PanObject) []string {
 	return ns
 }
 
-var c06Args = []string{"", "a", "i", "s", "fn", "o", "m", "r"}
+var c06Args = []string{"", "a", "i", "s", "fn", "o", "m", "r", "rd", "ad"}
 
 // H_C06_step: one operation: receiver = pool value Param(0); the property is a solver
 // choice among EVERY name reachable from its prototype chain; the argument a solver
